@@ -106,9 +106,14 @@ def run_closed(ctx, case):
     rho = build(c)
     rho = (rho + rho.conj().T) / 2
     layout = ref.LAYOUTS[(c['prng'] // 7) % len(ref.LAYOUTS)]
+    if c['prng'] % 3 == 1 and float(np.abs(rho.imag).max()) == 0.0:
+        rho = np.ascontiguousarray(rho.real)  # a real state held in a real dtype
     rho = ref.with_layout(rho, layout)  # same values; the measures are functions of the matrix, not of its strides
     rank = int((np.linalg.eigvalsh(rho) > 1e-12).sum())
-    Cq = float(E.get_concurrence_2qubit(rho))
+    try:  # only for the class labels; a failure is judged after ctx.note (the same call is repeated below)
+        Cq = float(E.get_concurrence_2qubit(rho.copy()))
+    except Exception:
+        Cq = float('nan')
     tiny = 0 < Cq < 1e-6
     ctx.note(klass=c['kind'], desc=[c['kind'], rank, int(c['eps_exp']) if c['kind'] == 'near_separable' else 0, 'tiny' if tiny else ('zero' if Cq == 0 else 'pos')],
              nontrivial=(c['kind'] not in ('werner', 'isotropic') or tiny), labels=[c['kind'], f'rank={rank}', 'tiny concurrence' if tiny else ('C=0' if Cq == 0 else 'C>0'), 'layout=' + layout])
@@ -219,7 +224,10 @@ def run_model(ctx, case):
             arg = buf
             ctx.label('same array object re-used for the next state')
         else:
-            arg = rho
+            lay_m = ref.LAYOUTS[(case['prng'] // 7 + it) % len(ref.LAYOUTS)]
+            arg = ref.with_layout(rho, lay_m)  # e.g. rho.T of a conjugated matrix, the output of an einsum: column-major
+            ctx.label('model input layout=' + lay_m)
+        arg_keep = np.array(arg, copy=True)
         try:
             model.set_density_matrix(arg)
         except AssertionError:
@@ -229,6 +237,7 @@ def run_model(ctx, case):
             raise
         if under_rank and ranks[it] > rank:
             ctx.label('state of higher rank than the model accepted')
+        ctx.close(arg, arg_keep, 0, f'{name} model: set_density_matrix does not modify the matrix it is given')
         with torch.no_grad():
             for p in model.parameters():
                 p.copy_(torch.tensor(r.normal(size=tuple(p.shape)) * case['scale'], dtype=p.dtype))
